@@ -64,6 +64,7 @@ class StrEval:
     def __init__(self, sinks=(), fns=None):
         self.sinks = set(sinks)  # function names that end the pipeline: their first argument is the result
         self.fns = fns or {}     # other functions of the module (srcfacts fn items), interpreted on call
+        self.consts = {}         # module-level constants: name -> expression
         self.steps = 0
 
     def bind(self, pat, val, env):
@@ -102,6 +103,11 @@ class StrEval:
             elif k == "expr_stmt":
                 v = self.eval(st["expr"], env)
                 last = None if st.get("semi") else v
+            elif k == "const" and st.get("name") and st.get("e"):
+                env[st["name"]] = self.eval(st["e"], env)
+            elif k == "fn" and st.get("name"):
+                self.fns = dict(self.fns)
+                self.fns[st["name"]] = st
             elif k in ("use", "other_item", "fn", "const"):
                 continue
             else:
@@ -121,6 +127,8 @@ class StrEval:
                 return ("fn", e["path"].split("::")[-1])
             if e["path"] in ("None", "Option::None"):
                 return ("None",)
+            if e["path"].split("::")[-1] in self.consts:
+                return self.eval(self.consts[e["path"].split("::")[-1]], {})
             raise Unknown("name %s" % e["path"])
         if k == "if":
             c = e["cond"]
